@@ -7,7 +7,8 @@
 From Common Require Import Bytes Blake2b.
 From Trie Require Import Nibbles Node Encode Spec.
 From TrieCodec Require Codec View Db ProofsDb.
-From C06 Require Import Model MapSem Proofs Gen Lookup LookupProofs Bridge.
+From Trie Require Sem InsertProofs.
+From C06 Require Import Model MapSem Proofs Gen Lookup LookupProofs Bridge BridgeProofs.
 
 (* Hash() after any history is the spec root of the last-write-wins map of that history. *)
 Theorem C06_root_spec :
@@ -47,6 +48,39 @@ Theorem C06_reopen_lookup :
   tget st d (H (Codec.encode H n)) key = Db.lookup n (Codec.nibbles_of_bytes key).
 Proof. exact tget_correct. Qed.
 Print Assumptions C06_reopen_lookup.
+
+(* The canonical trie of the specification and its image in the codec's node type (Bridge.to_ct:
+   byte nibbles, explicit MustBeHashed computed from the version) have the same root hash — the two
+   independently written encoders (Trie/Encode.v for C01, TrieCodec/Codec.v for C07) agree on every
+   canonical trie — and the same value under every key. *)
+Theorem C06_bridge :
+  forall (H : list byte -> list byte) (ver : version) (t : tnode),
+  InsertProofs.Canon t ->
+  Codec.root_hash H (Bridge.to_ct ver t) = trie_root H ver (Some t)
+  /\ forall k, nibbles_ok k -> Db.lookup (Bridge.to_ct ver t) (Bridge.nb k) = Sem.lookup t k.
+Proof. intros H ver t C. split; [apply root_to_ct; auto | intros; apply lookup_to_ct; auto]. Qed.
+Print Assumptions C06_bridge.
+
+(* End to end, for every history of Puts, Deletes and commits and every state version: if the
+   database holds the bindings commit()/commitChild() write for the canonical trie of the map the
+   history denotes (and that trie respects the codec's size limits: partial keys of at most 65535
+   nibbles, values below 4 GiB), then that trie's root hash is the root the engine has to return
+   and a fresh instance opened at this root reads, for EVERY key, exactly the last value written to
+   it — nothing for keys never written or deleted last.  (Hypotheses on H as in C06_reopen_lookup.) *)
+Theorem C06_reopen_end_to_end :
+  forall (H : list byte -> list byte),
+  (forall x, length (H x) = 32%nat) -> (forall x, Codec.h256_of (H x) = H x) ->
+  forall (st : bool * bool) (ver : version) (ops : list op) (d : Db.db),
+  match Bridge.committed ver (map_of ops) with
+  | Some n =>
+    View.wf_node n = true -> ProofsDb.has d (tneeds_root H n) ->
+    Codec.root_hash H n = engine_root H ver ops
+    /\ forall key, tget st d (engine_root H ver ops) key = last_write ops key
+  | None =>
+    engine_root H ver ops = H [n2b 0] /\ forall key, last_write ops key = None
+  end.
+Proof. exact reopen_end_to_end. Qed.
+Print Assumptions C06_reopen_end_to_end.
 
 Example C06_reopen_nonvacuous :
   match Bridge.committed V1 demo_map with
